@@ -118,11 +118,12 @@ def main(run):
             cfg["d"] = min(cfg["d"], 4)
             cfg["n_inner"] = min(cfg["n_inner"], 3)
             cfg["steps"] = STREAM[run.tier]
+            cfg["manual_updates"] = False       # (the twin comparison needs both copies to see the same stream)
             scenarios.append(("incr", cfg, rnd.randrange(2 ** 31)))
         # float-mode SAGE whose model returns NumPy arrays as dict values (mutable estimates: in-place updates must not leak)
         cfg = gen_cfg(rnd, "sage", exact=False)
         cfg.update(d=min(cfg["d"], 3), n_inner=min(cfg["n_inner"], 2), steps=STREAM[run.tier], model="array1", loss="sqf",
-                   dyn=(i % 2 == 0), imputer=rnd.choice(["joint", "product", "custom"]))
+                   dyn=(i % 2 == 0), imputer=rnd.choice(["joint", "product", "custom"]), manual_updates=False)
         scenarios.append(("incr", cfg, rnd.randrange(2 ** 31)))
     for i in range(N_BATCH[run.tier]):
         for kind in ("batch", "interval"):
